@@ -86,6 +86,10 @@ def make_b85(case, ctx):
         b = B85(master_node=Prv(key=b"\x00" + k.to_bytes(32, "big"), chain_code=c))
     elif route == "from_xprv":
         b = B85.from_xprv(xprv=rm.xprv(), testnet=False) if k % 2 else B85.from_xprv(rm.xprv())
+    elif route == "from_xprv-slip132":
+        # the same master key exported under another private version (yprv / zprv / uprv / vprv): BIP85 ignores version bytes
+        ver = R.VERSION_OF[("prv", bool(k & 2), 84 if k & 1 else 49)]
+        b = B85.from_xprv(rm.xprv(ver), bool(k & 2)) if k & 4 else B85.from_xprv(xprv=rm.xprv(ver))
     elif route == "wallet":
         b = BaseWallet(master=Prv(key=k.to_bytes(32, "big"), chain_code=c)).bip85
     elif route in ("derived-node", "derived-node-wallet"):
@@ -153,7 +157,7 @@ MASTERS = [(1, b"\x00" * 32), (N - 1, b"\xff" * 32), (0x00FACE << 200, bytes(ran
 def enum_apps(tier):
     idxs = [0, 1, H - 1] if tier == "quick" else [0, 1, 2, H - 2, H - 1, 1000003]
     masters = MASTERS[:3] if tier == "quick" else MASTERS
-    routes = ["direct", "from_xprv", "wallet", "key33", "paper-tprv", "derived-node", "derived-node-wallet"]
+    routes = ["direct", "from_xprv", "wallet", "key33", "paper-tprv", "derived-node", "derived-node-wallet", "from_xprv-slip132"]
     n = 0
     for app, params in PARAMS.items():
         for param in params:
@@ -170,7 +174,7 @@ def gen_apps(tier):
         return {"app": app, "param": params[p % len(params)], "index": index, "k": k, "c": c, "route": route, "kwargs": kw}
     return st.builds(mk, st.sampled_from(sorted(PARAMS)), st.integers(0, 1000),
                      S.normal_indexes(), S.scalars(), S.chain_codes(),
-                     st.sampled_from(["direct", "direct", "from_xprv", "wallet", "key33", "paper-tprv", "derived-node", "derived-node-wallet"]), st.booleans())
+                     st.sampled_from(["direct", "direct", "from_xprv", "wallet", "key33", "paper-tprv", "derived-node", "derived-node-wallet", "from_xprv-slip132"]), st.booleans())
 
 
 def nt_app(case):
@@ -409,6 +413,40 @@ def check_keywords(case, ctx):
                             "(param=%r, index=%d)" % (what, got, want, p_, i_))
 
 
+# ------------------------------------------------------------------------------------ one object used for a long time
+def enum_long_use(tier):
+    n = 2200 if tier == "quick" else 9000
+    for j, app in enumerate(["wif", "hex"] if tier == "quick" else ["wif", "hex", "xprv", "pwd", "mnemonic"]):
+        yield {"app": app, "count": n, "m": j % len(MASTERS)}
+
+
+def check_long_use(case, ctx):
+    """More distinct secrets than any small table holds are drawn from ONE BIP85 object; then early, middle and late requests
+    are repeated on it and the next new index is asked for."""
+    Prv, B85, BaseWallet, PaperWallet = _impl()
+    k, c = MASTERS[case["m"]]
+    rm = R.Node.from_priv(k, c)
+    b = B85(master_node=Prv(key=k.to_bytes(32, "big"), chain_code=c))
+    app, n = case["app"], case["count"]
+    param = {"wif": None, "xprv": None, "hex": 32, "pwd": 21, "mnemonic": 12}[app]
+    first = {}
+    probes = sorted({0, 1, 2, 7, n // 2, n - 2050, n - 2049, n - 2048, n - 2047, n - 1025, n - 1024, n - 257, n - 256, n - 2, n - 1} & set(range(n)))
+    for i in range(n):
+        v = app_call(b, app, param, i)
+        if i in probes:
+            first[i] = v
+    ctx.count("__extra_evals__", n)
+    for i in probes + [n, n + 1]:
+        try:
+            want, _ = app_expect(rm, app, param, i)
+        except R.Invalid:
+            continue
+        st_, got = call(app_call, b, app, param, i)
+        if st_ == "exc" or got != want or first.get(i, want) != want:
+            raise Violation("C12/long-use/value-differs[%s]" % app, "after %d requests on one BIP85 object, %s(index=%d) = %r (first time: "
+                            "%r), BIP85 defines %r" % (n, app, i, got, first.get(i), want))
+
+
 def clauses():
     return [
         Clause("apps", check_app,
@@ -447,6 +485,12 @@ def clauses():
                gen=lambda tier: __import__("vlib.props.c18", fromlist=["x"]).gen_bip85_path(tier),
                classes=lambda c: ["%s:%s" % (c["app"], c["kind"])],
                n={"quick": 400, "thorough": 20000}, shards={"quick": 16, "thorough": 16}),
+        Clause("long-use", check_long_use,
+               "2200 (thorough: 9000) consecutive indexes of one application drawn from ONE BIP85 object, then early / middle / "
+               "late indexes (around every power-of-two distance from the end) asked again and two new ones; against the "
+               "reference",
+               enum=enum_long_use, exhaustive=True, enum_desc="2 (quick) / 5 (thorough) applications x 2200 / 9000 requests on one object",
+               nontrivial=lambda c: True, shards={"quick": 2, "thorough": 5}),
         Clause("paper-block", check_block,
                "PaperWallet.bip85_data(): its nine labelled entries equal BIP85 at exactly the labelled paths",
                gen=lambda tier: st.fixed_dictionaries({"seed": S.seeds(16, 64), "testnet": st.booleans()}),
